@@ -261,7 +261,7 @@ func run(sc scenario) (out runOut) {
 			return n, true
 		case <-er.Done():
 			return 0, false
-		case <-time.After(30 * time.Second):
+		case <-harness.After(30 * time.Second):
 			return -1, false
 		}
 	}
@@ -322,7 +322,7 @@ func run(sc scenario) (out runOut) {
 	}
 	select {
 	case <-er.Done():
-	case <-time.After(30 * time.Second):
+	case <-harness.After(30 * time.Second):
 		return fail("never-done", "the execution result's Done channel was not closed 30s after the last attempt returned")
 	}
 	for i := sc.EarlyN; i < len(sc.Readers); i++ {
@@ -332,7 +332,7 @@ func run(sc scenario) (out runOut) {
 	go func() { wg.Wait(); close(fin) }()
 	select {
 	case <-fin:
-	case <-time.After(30 * time.Second):
+	case <-harness.After(30 * time.Second):
 		return fail("reader-blocked", "a reader was still blocked 30s after Done was closed")
 	}
 	if sc.Cancel == "after" {
@@ -607,7 +607,7 @@ func TestCancelAfterInnerTimeout(t *testing.T) {
 		case <-er.Done():
 			v, e := er.Get()
 			harness.Violation(t, prop, test, "completed-instead-of-waiting", sc, "%+v: completed with (%d,%v) instead of waiting for the retry", sc, v, e)
-		case <-time.After(30 * time.Second):
+		case <-harness.After(30 * time.Second):
 			harness.Inconclusive(t, "the first attempt did not time out within 30s")
 		}
 		er.Cancel()
@@ -621,7 +621,7 @@ func TestCancelAfterInnerTimeout(t *testing.T) {
 		go func() { wg.Wait(); close(fin) }()
 		select {
 		case <-fin:
-		case <-time.After(30 * time.Second):
+		case <-harness.After(30 * time.Second):
 			harness.Violation(t, prop, test, "never-done", sc, "%+v: readers still blocked 30s after Cancel", sc)
 		}
 		for i, e := range errs {
@@ -670,7 +670,7 @@ func TestCancelSpin(t *testing.T) {
 				er.Cancel()
 				select {
 				case <-er.Done():
-				case <-time.After(30 * time.Second):
+				case <-harness.After(30 * time.Second):
 					firstBad.set(errors.New("not done 30s after Cancel"))
 					return
 				}
